@@ -115,6 +115,9 @@ func (t *Tape) Range(stream string, lo, hi int) int {
 	return lo + t.Choose(stream, hi-lo+1)
 }
 
+// IsReplay reports whether the tape replays recorded draws.
+func (t *Tape) IsReplay() bool { return t.replay }
+
 // Recorded returns a copy of everything drawn so far.
 func (t *Tape) Recorded() map[string][]int {
 	t.mu.Lock()
